@@ -870,3 +870,13 @@ Proof.
     match goal with Hq : same_denom _ = true |- _ => cbn [same_denom] in Hq; rewrite forallb_forall in Hq; specialize (Hq s Hs) end.
     lia.
 Qed.
+
+(* ---------- fixtures for the Examples of props/C13.v ---------- *)
+Definition T : N := 1647032401000000000.
+Definition st3 : list stage :=
+  [mkStage 0 (T + 10) (T + 20) 0 100 1 None; mkStage 1 (T + 20) (T + 30) 0 107 2 (Some 51);
+   mkStage 2 (T + 30) (T + 40) 0 114 3 None].
+Definition msg3 : inst :=
+  mkInst st3 [[(100, 1); (110, 1)]; [(101, 1); (110, 1)]; [(102, 1)]] 20 None [] true [1] 100000000.
+Definition w3 : wl := match instantiate KPlain T msg3 with Ok w => w | Err => mkWl KPlain [] [] [] 0 0 None [] [] end.
+
